@@ -585,7 +585,39 @@ def h_addmod(case):
     return {'out': [[r.start, r.length, r.text == real[max(r.start, 0):max(r.start, 0) + r.length] and r.start >= 0] for r in ers]}
 
 
+def h_digitalvalue(case):
+    """BaseNumberParser._get_digital_value(s, 1) for a list of strings (advisory binding of DigitalValue.tla);
+    each result as [negative?, integer part, millionths] or the exception name"""
+    global _NUMP
+    try:
+        _NUMP
+    except NameError:
+        _NUMP = {}
+    cul = case['culture']
+    if cul not in _NUMP:
+        from recognizers_number.number.parser_factory import AgnosticNumberParserFactory, ParserType
+        from recognizers_number.culture import CultureInfo
+        from recognizers_number.number.english.parsers import EnglishNumberParserConfiguration
+        from recognizers_number.number.spanish.parsers import SpanishNumberParserConfiguration
+        from recognizers_number.number.german.parsers import GermanNumberParserConfiguration
+        conf = {'en-us': EnglishNumberParserConfiguration, 'es-es': SpanishNumberParserConfiguration,
+                'es-mx': SpanishNumberParserConfiguration, 'de-de': GermanNumberParserConfiguration}[cul]
+        _NUMP[cul] = AgnosticNumberParserFactory.get_parser(ParserType.NUMBER, conf(CultureInfo(cul)))
+    from decimal import Decimal
+    out = []
+    for t in case['texts']:
+        try:
+            v = _NUMP[cul]._get_digital_value(t, 1)
+            a = abs(Decimal(v))
+            ip = int(a)
+            out.append([bool(Decimal(v) < 0), ip, int(((a - ip) * 1000000).to_integral_value())])
+        except Exception as ex:
+            out.append(type(ex).__name__)
+    return {'out': out}
+
+
 _HANDLERS = {
+    'digitalvalue': h_digitalvalue,
     'addmod': h_addmod,
     'generatedates': h_generatedates,
     'selectcands': h_selectcands,
